@@ -4,6 +4,8 @@ CONSTANTS
   Bound = 1
   MaxCrashes = 2
   PopBeforeSave = FALSE
+  ReInject = FALSE
+  WriteFails = FALSE
 INVARIANTS NoLossStrict NoDupWithoutCrash
 PROPERTIES EventuallyIncluded
 CHECK_DEADLOCK FALSE
